@@ -411,7 +411,7 @@ def run(c):
     # modes exactly ON bin edges (|k| = j*dk, edges at j*dk/2), so the side they fall on is a rounding convention of the
     # edge arithmetic (either neighbour is legitimate); it must still never depend on the particles (checked per case).
     extra['frames'] = [framekey(c) + '#L' + digest(frame, 'layout'),
-                       framekey(c) + '@' + str(frame.cols['power'].dtype) + '#N' + digest(frame, 'nmode')]
+                       framekey(c) + '@' + str(frame.cols['power'].dtype) + '/' + str(c['dt']) + '#N' + digest(frame, 'nmode')]     # (and the precision of the field it was given)
     extra['output_dtypes'] = sorted(outd)
     show_sample = sample if (c['comp'] and c['poles'] and (c['g'], c['paste'], c['il'], c['dt']) in
                              ((8, 'TSC', 1, 'f4'), (5, 'CIC', 0, 'f4'), (6, 'TSC', 0, 'f4'), (8, 'CIC', 1, 'f84'), (5, 'TSC', 1, 'f8'))) else None
